@@ -13,6 +13,10 @@ exists) and `WriteTransaction::ephemeral_savepoint` (refuse if `dirty`, else reg
 savepoint) both run under the `tables` mutex, i.e. each is ONE atomic action:
   * `c16_tracking_on_if_savepoint`  every interleaving of any number of the two atomic actions keeps
                                     `savepointExists → trackingOn`
+  * `c16_no_savepoint_after_any_dirtying_call`  over the API surface: after any call sequence containing
+                                    one of the six calls that hand out a table or change the catalog,
+                                    `ephemeral_savepoint` is refused (`c16_savepoint_granted_when_clean`:
+                                    and granted when there was none)
   * `c16_unlocked_race_witness`     if check and registration of `ephemeral_savepoint` can be
                                     separated (no lock) three actions reach `savepointExists ∧ ¬trackingOn`
   * `c16_locked_is_atomic_pair`     the locked action = check immediately followed by registration
@@ -61,6 +65,61 @@ theorem c16_tracking_on_if_savepoint (ops : List Op) :
 savepoint: savepoint eligibility is decided atomically with the registration -/
 theorem c16_savepoint_refused_when_dirty (s : St) (h : s.dirty = true) :
     step s .ephemeralSavepoint = s := by simp [step, h]
+
+theorem dirty_step_mono {s : St} (h : s.dirty = true) (o : Op) : (step s o).dirty = true := by
+  cases o <;> simp [step, h]
+
+theorem dirty_run_mono {s : St} (h : s.dirty = true) (ops : List Op) : (run s ops).dirty = true := by
+  induction ops generalizing s with
+  | nil => exact h
+  | cons o ops ih => exact ih (dirty_step_mono h o)
+
+theorem dirty_after_dirtying_call (s : St) (c : Call) (hc : c.dirtying = true) :
+    (step s c.op).dirty = true := by
+  cases c <;> simp_all [Call.op, Call.dirtying, step]
+
+theorem dirty_of_mem (s : St) (cs : List Call) (c : Call) (hm : c ∈ cs) (hc : c.dirtying = true) :
+    (runCalls s cs).dirty = true := by
+  induction cs generalizing s with
+  | nil => cases hm
+  | cons d ds ih =>
+    simp only [runCalls, run, List.map_cons, List.foldl_cons]
+    rcases List.mem_cons.mp hm with rfl | hm'
+    · exact dirty_run_mono (dirty_after_dirtying_call s c hc) _
+    · exact ih (step s d.op) hm'
+
+/-- Savepoint eligibility over the whole API surface: after ANY sequence of calls on a write
+transaction (in the order in which they took the `tables` lock, whichever threads made them) that
+contains at least one call handing out a table or changing the catalog - `open_table`,
+`open_multimap_table`, `delete_table`, `rename_table`, `delete_multimap_table`,
+`rename_multimap_table` - a following `ephemeral_savepoint` is refused: it changes nothing, in
+particular it registers no savepoint. -/
+theorem c16_no_savepoint_after_any_dirtying_call (cs : List Call) (c : Call) (hm : c ∈ cs)
+    (hc : c.dirtying = true) :
+    runCalls init (cs ++ [.ephemeralSavepoint]) = runCalls init cs := by
+  have hd := dirty_of_mem init cs c hm hc
+  simp only [runCalls, run, List.map_append, List.foldl_append, List.map_cons, List.map_nil,
+    List.foldl_cons, List.foldl_nil, Call.op] at hd ⊢
+  exact c16_savepoint_refused_when_dirty _ hd
+
+/-- and a transaction on which none of them has been called is granted the savepoint -/
+theorem c16_savepoint_granted_when_clean (n : Nat) :
+    (runCalls init (List.replicate n .ephemeralSavepoint ++ [.ephemeralSavepoint])).savepointExists = true := by
+  have clean : ∀ (k : Nat) (s : St), s.dirty = false →
+      (run s (List.replicate k Op.ephemeralSavepoint)).dirty = false := by
+    intro k
+    induction k with
+    | zero => intro s h; simpa [run] using h
+    | succ k ih =>
+      intro s h
+      simp only [run, List.replicate_succ, List.foldl_cons]
+      exact ih _ (by simp [step, h])
+  have hd := clean n init (by simp [init])
+  simp only [runCalls, run, List.map_append, List.map_replicate, List.foldl_append, List.map_cons,
+    List.map_nil, List.foldl_cons, List.foldl_nil, Call.op] at hd ⊢
+  simp [step, hd]
+
+example : (Call.openMultimapTable).dirtying = true ∧ Call.openMultimapTable ∈ [Call.openMultimapTable] := by decide
 
 /-- NEGATIVE result: without the lock — `ephemeral_savepoint` split into its check and its
 registration, separately schedulable — three actions reach a state in which a savepoint exists
